@@ -231,7 +231,7 @@ PROPS = {
                 "silenced long enough for TestRequest timers to expire, then Stop / Logout / Close during traffic; the seeded scheduler decides every interleaving and its own hand-offs "
                 "are hidden from the detector (runtime.RaceDisable), so only the library's synchronisation orders accesses; a report counts iff both accesses have their innermost "
                 "non-runtime frame in a library package; distinct = distinct context-switch-sequence hash; non-trivial = a preemption happened",
-        "mandatory_probes": ["logged_on", "resend_overlapped_send", "silence_injected", "stop_during_traffic"],
+        "mandatory_probes": ["logged_on", "resend_overlapped_send", "silence_injected", "stop_during_traffic", "timer_expired_between_single_messages"],
         "assumptions": ASSUME + ["the race detector judges only the pairs of accesses an execution performs; the union workload and schedule search widen that set, they do not close it"],
     },
 }
